@@ -228,7 +228,11 @@ type op struct {
 
 func (o op) String() string {
 	s := o.name
-	for _, v := range o.a {
+	for i, v := range o.a {
+		if (o.name == "ALLOCSEQ" && i == 8) || (o.name == "ALLOCBUF" && i == 9) {
+			s += " " + strconv.Itoa(int(int32(uint32(v)))) // failCode: a (negative) VkResult
+			continue
+		}
 		s += " " + strconv.FormatUint(v, 10)
 	}
 	return s
